@@ -22,7 +22,7 @@ ASSUMPTIONS = ["no order is demanded between publication and Change handlers, no
                "Change events for sibling switches flipped by a rule are not demanded; for BLOBs only 'changed bytes => Change'",
                "Element._value is read inside handler probes (the public .value would itself raise a Read event)"]
 REQUIRED_EVENTS = ["operations", "multi_instance_cases", "write_handler_calls", "change_handler_calls", "read_handler_calls", "coroutine_handler_runs",
-                   "vetoed_writes", "publications_observed"]
+                   "vetoed_writes", "publications_observed", "operations_cut_short_by_a_failing_read_handler"]
 
 
 QUICK_SHARDS = 4
@@ -85,6 +85,10 @@ def gen_handlers(rng, spec):
     for _ in range(rng.choice([1, 1, 2])):
         hs.append({"id": hid, "event": "Read", "async": False, "veto": False, "targets": [("r", "e0")], "refresh": f"fresh{hid}"})
         hid += 1
+    # sometimes the hardware read behind a refreshing handler FAILS, once, at its n-th call: that operation is cut short (not
+    # judged), everything after it is judged as usual
+    if rng.random() < 0.3:
+        hs[-1]["fail_at_call"] = rng.choice([1, 2, 3, 5])
     return hs
 
 
@@ -141,6 +145,11 @@ def build_driver(spec, handlers, trace, state):
                        "stored": blobkey(stored), "new_value": blobkey(getattr(event, "new_value", None)),
                        "old_value": blobkey(getattr(event, "old_value", None)),
                        "vector_stored": {k: blobkey(e._value) for k, e in el.vector._elements.items()}}
+                if h.get("fail_at_call"):
+                    state.calls[h["id"]] = state.calls.get(h["id"], 0) + 1
+                    if state.calls[h["id"]] == h["fail_at_call"]:
+                        state.failed_in_op = state.op_index
+                        raise RuntimeError("failpoint: the hardware read behind this Read handler timed out")
                 trace.append(rec)
                 if h["veto"]:
                     event.prevent_default = True
@@ -170,6 +179,8 @@ class State:
         self.seq = 0
         self.in_op = False
         self.op_index = -1
+        self.calls = {}
+        self.failed_in_op = None
 
     def next(self):
         self.seq += 1
@@ -273,11 +284,18 @@ async def execute(ctx, case, spec, handlers, ops, ninst=1, targets=None, order=T
                 vec.state_ = "Busy" if vec.state_ != "Busy" else "Ok"
         except Exception as e:
             state.in_op = False
+            if state.failed_in_op == oi:
+                ctx.count("operations_cut_short_by_a_failing_read_handler")
+                await drain()
+                continue
             ctx.violate(f"operation-raises:{how}:{kind}:{type(e).__name__}", f"op {op} raised {e!r}", ocase)
             return
         state.in_op = False
         end_seq = state.next()
         await drain()
+        if state.failed_in_op == oi:
+            ctx.count("operations_cut_short_by_a_failing_read_handler")
+            continue
         seg = trace[mark:]
         hs = by_target.get((vattr, eattr), [])
         nontrivial = bool(hs)
